@@ -15,12 +15,13 @@ def run(ctx):
     ctx.build_harness()
     ctx.cov["trusted_base"] = ["TLC 1.8.0", "symbolic (Dolev-Yao style) treatment of signatures, encryption and hashing in TLCPAdv",
                                "PKI generated at run time with the library (explicit SM2-SM3 algorithm)", "verif peer fault points (SKE / CertificateVerify bytes)"]
-    fracs = 64 if thorough else 8
+    fracs = 48 if thorough else 8
     with open(os.path.join(ctx.tladir(), "TLCPAdv.cfg"), "w") as f:
-        f.write("SPECIFICATION Spec\nCONSTANT Fracs = %d\nINVARIANTS AuthServer AuthClient Agreement HonestCompletes\nCONSTRAINT Emit\n" % fracs)
+        f.write("SPECIFICATION Spec\nCONSTANTS\n Fracs = %d\n ByteAll = %s\nINVARIANTS AuthServer AuthClient Agreement HonestCompletes LaxPoliciesAccept\nCONSTRAINT Emit\n"
+                % (fracs, "TRUE" if thorough else "FALSE"))
     r = ctx.tlc("TLCPAdv", "TLCPAdv.cfg", workers=1, timeout=600)
     rows = markers(r["out"], "CASE")
-    if len(rows) < 40:
+    if len(rows) < 400:
         raise Infra("only %d scenarios" % len(rows))
     ctx.log("TLCPAdv: %d attacker scenarios, Authentication and Agreement hold on the model" % len(rows))
     casef = os.path.join(ctx.work, "cases.ndjson")
@@ -41,7 +42,7 @@ def run(ctx):
         # a crash of the endpoint that plays the attacker in this scenario (e.g. a server configured with an RSA
         # key where SM2 is required) is not this property's subject; the endpoint under test must not crash
         srv_is_attacker = any(c[k] not in ("good", "right", "honest") for k in ("signCert", "encCert", "signKey", "encKey", "ske"))
-        cli_is_attacker = c["cauth"] and any(c[k] not in ("good", "right", "honest") for k in ("cliCert", "cliKey", "cv"))
+        cli_is_attacker = c["policy"] != "none" and any(c[k] not in ("good", "right", "honest") for k in ("cliCert", "cliKey", "cv"))
         if g["CliPanic"] and not cli_is_attacker:
             probs.append("client panicked: %s" % g["CliPanic"][:300])
         if g["SrvPanic"] and not srv_is_attacker:
@@ -55,17 +56,22 @@ def run(ctx):
             probs.append("the server completed the handshake (specification: server aborts)")
         if want_c and want_s and not (g["CliComplete"] and g["SrvComplete"]):
             probs.append("honest scenario did not complete: client err=%r server err=%r" % (g["CliErr"], g["SrvErr"]))
+        if want_c and want_s and not probs and c["mitm"] == "none" and g["Suite"] != g["WantSuite"]:
+            raise Infra("scenario %s ran under suite %04x instead of %04x" % (json.dumps(c), g["Suite"], g["WantSuite"]))
         if probs:
-            diff = {k: v for k, v in c.items() if v not in ("good", "right", "honest", "none") and not (k == "verify" and v is True) and not (k == "cauth" and v is False)}
+            diff = {k: v for k, v in c.items() if k in ("proto", "kx", "suite") or (v not in ("good", "right", "honest", "none", "") and not (k == "verify" and v is True))}
             ctx.violation("scenario %s: %s" % (json.dumps(diff, sort_keys=True), "; ".join(probs)), {"case": c, "expect": e, "observed": g})
         else:
             ok += 1
     ctx.log("scenarios conforming: %d / %d" % (ok, len(allrows)))
     ctx.cov["evaluations"] = len(allrows)
-    ctx.cov["distinct_nontrivial"] = len(rows) - 3
+    nh = len([x for x in rows if x["expect"] == {"client": "complete", "server": "complete"}])
+    ctx.cov["distinct_nontrivial"] = len(rows) - nh
+    ctx.cov["scenarios_expected_to_complete"] = nh
     ctx.cov["exhaustive"] = True
-    ctx.cov["rule"] = ("scenario = one deviation from the honest GMSSL handshake (certificate kind per slot, wrong private key per slot, ServerKeyExchange omitted / replayed / mis-signed / over "
-                       "another encryption certificate, client certificate kind, wrong client key, replayed CertificateVerify, 13 man-in-the-middle field rewrites, verification off); "
-                       "non-trivial = not one of the 3 honest scenarios")
+    ctx.cov["rule"] = ("scenario = one deviation from the honest handshake under one of six protocol combinations (GMSSL ECC, TLS RSA key transport, TLS ECDHE_RSA; CBC and AEAD suite): "
+                       "certificate kind per slot, wrong private key per slot, ServerKeyExchange omitted / replayed / mis-signed / over another encryption certificate, client certificate "
+                       "kind / none, wrong client key, replayed CertificateVerify under each of the four client-auth policies, named man-in-the-middle field rewrites, one byte changed at "
+                       "%d positions of each plaintext handshake message, verification off; non-trivial = expected to abort on at least one side" % fracs)
     for x in rnd.sample(rows, 3):
         ctx.sample(x)
